@@ -139,6 +139,62 @@ def bfs(kind, flux, iname, cfl, bc, idx, depth, res=None, par=None):
     return out
 
 
+def drivers(kind, flux, iname, cfl, bc, idx, res=None, par=None):
+    """the same scheme run by the library's drivers over many steps: solve (stop after 60 iterations, one snapshot inside) and the legacy driver
+    solve_legacy (two save times, 8 and 60 initial steps away), on 20 cells (two blocks of 10, all ordered pairs of 7 letters): every returned state is positive and finite"""
+    par = DEFAULT[kind] if par is None else par
+    if kind == "euler1d":
+        al = []
+        for r, m, p in STRONG_E + [(1e3, 0.0, 1e3)]:          # + dense hot gas at rest: the strongest acceleration of its neighbours
+            rr, u, pp = space.euler_state(r, m, p, par)
+            al.append(np.array([rr, rr * u, pp / (par - 1.0) + 0.5 * rr * u * u]))
+    else:
+        al = [np.array([h, h * space.sw_state(h, f, par)[1]]) for h, f in STRONG_H + [(1e3, 0.0)]]
+    BLK = 10                                 # every letter fills a block of 10 cells: waves have room to accelerate the flow
+    idx_cells = tuple(i for i in idx for _ in range(BLK))
+    n = len(idx_cells)
+    mesh = space.mesh1.unimesh(ncell=n, length=float(n))
+    out = []
+    for entry in ("solve", "solve_legacy"):
+        model, disc = build(kind, flux, mesh, bc, par)
+        f = space.field_from_letters(model, mesh, al, idx_cells)
+        solver = space.integrators()[iname](mesh, disc)
+        with np.errstate(all="ignore"):
+            dt0 = float(np.min(disc.calc_timestep(f, cfl)))
+            try:
+                with core.time_limit(20.0):
+                    if entry == "solve":
+                        got = list(solver.solve(f, cfl, [8.3 * dt0], stop={"maxit": 60, "tottime": 1e30}).solutions) + list(solver.solve(f, cfl, stop={"maxit": 60}).solutions)
+                    else:
+                        got = list(solver.solve_legacy(f, cfl, [8.3 * dt0, 60.6 * dt0]))
+            except core.CallTimeout:
+                out.append(("C10/driver/%s/%s/%s/%s/%s/non-termination" % (entry, kind, flux, iname, bc), "%s %s %s %s CFL %g data letters %r: %s did not return" % (kind, flux, iname, bc, cfl, idx, entry)))
+                continue
+        if res is not None:
+            res.transitions += 1
+            res.evals += 1
+        for j, g in enumerate(got):
+            if not np.all(positive(kind, g.data, par)):
+                out.append(("C10/driver/%s/%s/%s/%s/%s/cfl=%g" % (entry, kind, flux, iname, bc, cfl), "%s %s %s %s CFL %g data letters %r: state %d returned by %s (t=%r) is %r"
+                            % (kind, flux, iname, bc, cfl, idx, j, entry, g.time, [x.tolist() for x in g.data])))
+                break
+    return out
+
+
+def shard_drivers(arg):
+    kind, flux, iname, cfl, bc, n = arg[:6]
+    par = arg[6] if len(arg) > 6 else None
+    res = core.Res()
+    for idx in itertools.product(range(7), repeat=n):
+        if len(set(idx)) == 1:
+            continue
+        res.nontrivial += 1
+        res.traces += 1
+        for s, w in drivers(kind, flux, iname, cfl, bc, idx, res, par):
+            res.violation(s, w, {"kind": "drv", "model": kind, "flux": flux, "integrator": iname, "cfl": cfl, "bc": bc, "idx": list(idx), "par": par})
+    return res
+
+
 def shard_bfs(arg):
     kind, flux, iname, cfl, bc, n, depth = arg[:7]
     par = arg[7] if len(arg) > 7 else None
@@ -188,9 +244,14 @@ def run(ctx):
                 cfg2.append((kind, flux, iname, 0.5, "sym", 3, 3, par))
     cfg2.sort(key=lambda c: -c[5])
     ctx.pmap("bfs-ssp", shard_bfs, cfg2)
+    cfg3 = [(kind, flux, iname, 0.5, bc, 2) for kind, fluxes in (("euler1d", ("hlle", "hllc")), ("shallowwater", ("rusanov", "hll"))) for flux in fluxes
+            for iname in SSP for bc in ("per", "sym")]
+    ctx.pmap("drivers-solve-and-solve_legacy", shard_drivers, cfg3)
 
 
 def replay(case):
+    if case.get("kind") == "drv":
+        return drivers(case["model"], case["flux"], case["integrator"], case["cfl"], case["bc"], tuple(case["idx"]), None, case.get("par"))
     if case["kind"] == "window":
         j = case["index"]
         return [(s, w) for s, w, _ in check_windows(case["model"], case["flux"], case["cfl"], case["tier"], j, j + 1, None, case.get("par"))]
